@@ -293,10 +293,11 @@ let rec judge_case (u : uni) (case : sx) (obs : sx list) : verdict =
        let nsid = n_of_int sid in
        let mv = val_of_sx vx in
        if not (has_type u.env (TStruct nsid) mv) then fail v "gen-illtyped" "generated value is not well-typed in the model";
-       let mb = append_struct u.env nsid mv in
-       let ms = encoded_size u.env nsid mv in
-       if encode_spec u.env nsid mv <> mb then fail v "model-encode-ne-spec" "model: append_struct differs from put (denote v)";
-       if int_of_n ms <> List.length mb then fail v "model-size-ne-len" "model: encoded_size differs from length of append_struct";
+       let ib = append_struct u.env nsid mv in         (* implementation-shaped model (generated tables) *)
+       let mb = encode_spec u.env nsid mv in            (* the reference: put (denote v) *)
+       let ms = n_of_int (List.length mb) in
+       if ib <> mb then fail v "model-encode-ne-spec" "model: append_struct (generated tables) differs from put (denote v)";
+       if int_of_n (encoded_size u.env nsid mv) <> List.length mb then fail v "model-size-ne-len" "model: encoded_size differs from the length of put (denote v)";
        (match obs with
         | L [A "size"; A gs] :: L [A "ok"; A gn; A gh] :: A guard :: A same :: second :: _ ->
             if gs <> gn then fail v "prop-size" (Printf.sprintf "EncodedSize %s but EncodeObject wrote %s" gs gn);
@@ -320,7 +321,7 @@ let rec judge_case (u : uni) (case : sx) (obs : sx list) : verdict =
        let sid = sid_of u tname in
        let nsid = n_of_int sid in
        let mv = val_of_sx vx in
-       let mb = append_struct u.env nsid mv in
+       let mb = encode_spec u.env nsid mv in
        let need = List.length mb and blen = int_of_string blen in
        (match obs with
         | L [A "ok"; A gn; A gh] :: A guard :: _ ->
@@ -340,7 +341,7 @@ let rec judge_case (u : uni) (case : sx) (obs : sx list) : verdict =
        let nsid = n_of_int sid in
        let mv = val_of_sx vx in
        if not (has_type u.env (TStruct nsid) mv) then fail v "gen-illtyped" "generated value is not well-typed in the model";
-       let mb = append_struct u.env nsid mv in
+       let mb = encode_spec u.env nsid mv in
        (match obs with
         | [L [A "size"; _]; L [A "ok"; _; A gh]; dobs] ->
             let gb = bytes_of_hex gh in
@@ -387,6 +388,13 @@ let rec judge_case (u : uni) (case : sx) (obs : sx list) : verdict =
             let nd = int_of_nat (need u.env (TStruct nsid) w) - 1 and sk = int_of_nat (skipped_depth u.env (TStruct nsid) w) in
             if nd <= int_of_n maxDepthLimit && sk <= 64 then begin
               let consumed = List.length bs - List.length rest in
+              (* the implementation against the REFERENCE decoder (independent of the generated
+                 constants): a well-formed message must be read as the reference reads it *)
+              (match absorb_top u.env nsid w d, obs with
+               | AOk av, dobs :: _ -> check_decode u v sid (DOk ((av, n_of_int consumed), [])) dobs "ref-"
+               | AMissing i, dobs :: _ -> check_decode u v sid (DErr (ERequired i)) dobs "ref-"
+               | AMismatch, dobs :: _ -> check_decode u v sid (DErr ETypeMismatch) dobs "ref-"
+               | _ -> ());
               (match absorb_top u.env nsid w d, md with
                | AOk av, DOk ((mv, mn), _) ->
                    if not (val_eqb av mv) then fail v "model-absorb-ne-decode" (Printf.sprintf "absorb %s decode %s" (str_of_val av) (str_of_val mv));
@@ -412,7 +420,7 @@ let rec judge_case (u : uni) (case : sx) (obs : sx list) : verdict =
             check_decode u v sid md dobs "corr-";
             (match md, rest with
              | DOk ((mv, _), _), [L [A "size"; A gs]; L [A "ok"; A gn; A gh]] ->
-                 let mb = append_struct u.env nsid mv in
+                 let mb = encode_spec u.env nsid mv in
                  if gs <> gn then fail v "prop-size" (Printf.sprintf "EncodedSize %s but EncodeObject wrote %s" gs gn);
                  if int_of_string gn <> List.length mb then fail v "corr-size" (Printf.sprintf "re-encoded size: model %d impl %s" (List.length mb) gn);
                  (match canon_bytes (bytes_of_hex gh), canon_bytes mb with
